@@ -366,6 +366,21 @@ private:
       erase(ii, inEdge);
     }
 
+    // Erase the (in- or out-) entry for N that shares the edge data cell: with
+    // parallel edges the first entry for N need not be the reverse entry of
+    // the edge being removed.
+    template <typename CellTy>
+    void erase(gNode* N, bool inEdge, CellTy cell) {
+      auto& edgelist = (inEdge) ? in_edges : edges;
+      first_eq_and_valid<gNode*> checker(N);
+      for (iterator ii = find(N, inEdge), ei = edgelist.end(); ii != ei; ++ii) {
+        if (checker(*ii) && ii->isInEdge() == inEdge && ii->second() == cell) {
+          erase(ii, inEdge);
+          return;
+        }
+      }
+    }
+
     iterator find(gNode* N, bool inEdge = false) {
       auto& edgelist = (inEdge) ? in_edges : edges;
       iterator ii, ei = edgelist.end();
@@ -743,11 +758,14 @@ public:
     if (Directional && !InOut) {
       src->erase(dst.base());
     } else {
-      dst->first()->acquire(mflag);
-      // EdgeTy* e = dst->second();
-      dst->first()->erase(
-          src, Directional ? true : false); // erase incoming/symmetric edge
+      gNode* other = dst->first();
+      other->acquire(mflag);
+      auto cell = dst->second();
+      // Erase src's own entry first: an undirected self-loop has both entries
+      // in the same vector and erasing the other one first invalidates dst.
       src->erase(dst.base());
+      // erase the incoming/symmetric entry that shares this edge's data
+      other->erase(src, Directional ? true : false, cell);
     }
   }
 
@@ -758,10 +776,12 @@ public:
     assert(dst);
 
     dst->acquire(mflag);
-    src->first()->acquire(mflag);
-    // EdgeTy* e = src->second();
-    src->first()->erase(dst); // erase the outgoing edge
+    gNode* other = src->first();
+    other->acquire(mflag);
+    auto cell = src->second();
     dst->erase(src.base(), true);
+    // erase the outgoing entry that shares this edge's data
+    other->erase(dst, false, cell);
   }
 
   //! Finds if an edge between src and dst exists
